@@ -338,6 +338,65 @@ func genExec() (string, error) {
 	emit("resetFSMBody", "Controller.resetFSM: statements (empty when the helper does not exist)", resetBody)
 	emit("resetFSMCallers", "controller/*.go: every call of c.resetFSM (function: statement)", resetCallers)
 	emit("checkMempoolCallers", "controller/*.go: every c.Mempool.CheckMempool() call with the mempool-FSM (re)initialisations that precede it in the same function", cm)
+	// ---- the validator-list cache (cache.liveValidators): who fills it, and from where on a live FSM ----
+	var lvReaders []string
+	fsmFiles, _ := filepath.Glob(filepath.Join(*repo, "fsm", "*.go"))
+	sort.Strings(fsmFiles)
+	for _, fn := range fsmFiles {
+		if strings.HasSuffix(fn, "_test.go") || strings.Contains(filepath.Base(fn), "verif_hooks") {
+			continue
+		}
+		f, e := g.ParseFile(fn)
+		if e != nil {
+			return "", e
+		}
+		for _, d := range f.AST.Decls {
+			fd, ok := d.(*ast.FuncDecl)
+			if !ok || fd.Body == nil {
+				continue
+			}
+			ast.Inspect(fd.Body, func(n ast.Node) bool {
+				if ce, ok := n.(*ast.CallExpr); ok {
+					switch g.ExprText(ce.Fun) {
+					case "s.getCurrentValidators":
+						lvReaders = append(lvReaders, fd.Name.Name+" -> getCurrentValidators")
+					case "s.getValidatorSet":
+						lvReaders = append(lvReaders, fd.Name.Name+" -> getValidatorSet")
+					case "s.GetCommitteeMembers", "s.GetDelegates":
+						lvReaders = append(lvReaders, fd.Name.Name+" -> "+strings.TrimPrefix(g.ExprText(ce.Fun), "s."))
+					}
+				}
+				return true
+			})
+		}
+	}
+	emit("liveValidatorsReaders", "fsm/*.go: the call chain into getCurrentValidators on the receiver's own state (caller -> callee)", lvReaders)
+	res, err := g.ParseFile(filepath.Join(*repo, "controller/result.go"))
+	if err != nil {
+		return "", err
+	}
+	var lottery []string
+	if crr := res.FindFunc("Controller", "CalculateRewardRecipients"); crr != nil {
+		for _, st := range crr.Body.List {
+			is, ok := st.(*ast.IfStmt)
+			if !ok || g.ExprText(is.Cond) != "!isOwnRoot" {
+				continue
+			}
+			ast.Inspect(is.Body, func(n ast.Node) bool {
+				if ce, ok := n.(*ast.CallExpr); ok && g.ExprText(ce.Fun) == "fsm.LotteryWinner" {
+					lottery = append(lottery, "if !isOwnRoot: "+g.ExprText(ce))
+				}
+				return true
+			})
+		}
+		ast.Inspect(crr.Body, func(n ast.Node) bool {
+			if ce, ok := n.(*ast.CallExpr); ok && g.ExprText(ce.Fun) == "fsm.LotteryWinner" {
+				lottery = append(lottery, "anywhere: "+g.ExprText(ce))
+			}
+			return true
+		})
+	}
+	emit("liveLotteryCalls", "controller/result.go CalculateRewardRecipients: calls of fsm.LotteryWinner on the live state machine", lottery)
 	b.WriteString("end Canopy.Gen.Exec\n")
 	return b.String(), nil
 }
